@@ -218,9 +218,12 @@ func (r *renderer) render(t types.Type, sv SV, depth int) string {
 	case *types.Signature:
 		r.approx = append(r.approx, "function parameter replaced by nil")
 		return "nil"
-	case *types.Map, *types.Chan:
-		r.approx = append(r.approx, "map/chan parameter replaced by nil")
-		return "nil"
+	case *types.Map:
+		r.approx = append(r.approx, "map parameter replaced by an empty map")
+		return "make(" + r.qual(t) + ")"
+	case *types.Chan:
+		r.approx = append(r.approx, "chan parameter replaced by a buffered channel")
+		return "make(" + r.qual(t) + ", 16)"
 	}
 	r.fail = "type not renderable: " + t.String()
 	return "nil"
@@ -244,8 +247,21 @@ func (r *renderer) renderable(t types.Type) bool {
 // candidate bounds tried in order: small first, then none
 func (vc *VC) searchBounds(level int) []string {
 	var out []string
+	// strings (w-c12): quantified string axioms are dropped in the search, so bound the length and
+	// restate the byte range for the positions that will be rendered
+	for i, p := range vc.fn.Params {
+		if b, ok := p.Type().Underlying().(*types.Basic); ok && b.Info()&types.IsString != 0 {
+			if sc, ok := vc.params[vc.con.Params[i]].(Sc); ok {
+				n := []int{8, 16, 48}[level]
+				out = append(out, fmt.Sprintf("(assert (and (<= 0 (slen %s)) (<= (slen %s) %d)))", sc.T, sc.T, n))
+				for k := 0; k < n; k++ {
+					out = append(out, fmt.Sprintf("(assert (and (<= 0 (sat %s %d)) (<= (sat %s %d) 255)))", sc.T, k, sc.T, k))
+				}
+			}
+		}
+	}
 	if level > 1 {
-		return nil
+		return out
 	}
 	var walk func(t types.Type, sv SV)
 	walk = func(t types.Type, sv SV) {
@@ -432,7 +448,7 @@ func replayVerdict(o *Obligation, out string) string {
 		}
 	}
 	if panicked {
-		return "CONFIRMED: the real function panics on this input"
+		return "candidate panicked (a crash, but not a confirmation of this clause)"
 	}
 	if strings.Contains(out, "GOVC-RETURNED") {
 		return "candidate executed; observed result recorded (no executable oracle for this clause)"
